@@ -29,7 +29,7 @@ func init() {
 		Name:   "login",
 		Props:  []string{"C15"},
 		Bubble: true,
-		Plan:   simple(30000, 400000),
+		Plan:   simple(30000, 10000000),
 		Run:    runLogin,
 		Real:   []string{"cmpp20.NewConnect, smgp30.NewLogin, cmpp.GenConnectTimestamp, cmpp.GenConnectAuth, cmpp.GenConnectRespAuthISMG (they read the simulated clock)", "IEncode / IDecode of the connect / login request and response types", "codec framers"},
 		Stub:   []string{"bubble clock and local zone", "server accept/reject decision and client-side verification with an independent crypto/md5 computation", "links"},
